@@ -41,7 +41,8 @@ def run(ctx):
         # an array path of T+1 values must be accepted with smearing, T values without
         if s["path"]["kind"] in ("arr", "list"):
             want = c["T"] + (1 if o.get("smear") else 0)
-            if len(s["path"]["vals"]) == want and st["err"] is not None:
+            others_ok = (s["tprof"]["kind"] not in ("arr", "list") or len(s["tprof"]["vals"]) == c["T"])     # a deliberately mis-sized t_profile must raise
+            if len(s["path"]["vals"]) == want and st["err"] is not None and others_ok and "path" in (st.get("msg") or "path"):
                 ctx.impl_violation("smear-array-path", "array path of %d values (tchans=%d, smearing=%s) was rejected: %s %s"
                                    % (want, c["T"], bool(o.get("smear")), st["err"], st.get("msg")), c)
         if st["err"] not in (None, "ValueError"):
